@@ -136,7 +136,8 @@ type StepRec struct {
 	ReadStates  []raft.ReadState
 
 	PropPayloads [][]byte
-	MixedPayloads [][]byte // normal entries following a configuration change in the same MsgProp
+	MixedPayloads [][]byte // normal entries in the same MsgProp as a configuration change
+	ConfLast      bool     // ... which precede it (otherwise they follow it)
 	PropType     pb.EntryType
 	ReadCtx      []byte
 
@@ -870,7 +871,8 @@ func (w *World) exec(ev Event, n *Node, rec *StepRec) {
 		}
 	case EvProposeConf:
 		w.Budget[BProposeConf]--
-		cc := w.confChange(w.Sc.ConfMenu[ev.Arg])
+		confLast := ev.Arg&0x100 != 0 // in a mixed batch the configuration change comes last
+		cc := w.confChange(w.Sc.ConfMenu[ev.Arg&0xff])
 		typ, data, err := pb.MarshalConfChange(cc)
 		if err != nil {
 			panic(err)
@@ -888,6 +890,10 @@ func (w *World) exec(ev Event, n *Node, rec *StepRec) {
 				p := w.payload(k, j+1, 0)
 				rec.MixedPayloads = append(rec.MixedPayloads, p)
 				ents = append(ents, &pb.Entry{Data: p})
+			}
+			if confLast {
+				ents = append(ents[1:], ents[0])
+				rec.ConfLast = true
 			}
 			rec.OpErr = n.RN.Step(&pb.Message{Type: pb.MsgProp.Enum(), From: new(n.ID), Entries: ents})
 		}
